@@ -10,6 +10,7 @@ import (
 	"fmt"
 	"os"
 	"runtime"
+	"strconv"
 	"strings"
 	"sync/atomic"
 	"time"
@@ -129,6 +130,82 @@ func Plan() []Case {
 	return cs
 }
 
+// ---- iteration with load-proof backstep cases ------------------------------------------------------------------
+// A backstep observation depends on wall-clock alignment (see New / valid below).  It is *valid* only if the whole run
+// stayed where it was meant to: the handler was reached in the 500 ms bucket in which the run was aligned, and the
+// statistics were read back less than 1000 ms after that bucket's start.  Invalid observations are discarded and the
+// case is run again; a backstep case is reported only when two valid observations of it agree (so a one-off
+// disturbance is never reported), after at most maxAttempts runs; otherwise every line of the case is printed as
+// `=> skipped`: no claim, never an alarm.
+
+const maxAttempts = 6
+
+type pendingLine struct {
+	head, trace string // "trace <key> <b> <h> <variant>", observed trace
+	valid       bool
+}
+
+var (
+	plan     []Case
+	planIdx  = -1
+	attempts int
+	pending  []pendingLine
+	prevSig  string
+	havePrev bool
+)
+
+func flush(lines []pendingLine, skipped bool) {
+	for _, l := range lines {
+		if skipped {
+			fmt.Printf("%s => skipped\n", l.head)
+		} else {
+			fmt.Printf("%s => %s\n", l.head, l.trace)
+		}
+	}
+}
+
+// Next yields the planned cases one by one (use: `for cs, more := probe.Next(); more; cs, more = probe.Next() {`),
+// re-yielding a backstep case until it has two agreeing valid observations or maxAttempts is reached.
+func Next() (Case, bool) {
+	if plan == nil {
+		plan = Plan()
+	}
+	if planIdx >= 0 && plan[planIdx].Backstep {
+		obs := pending
+		pending = nil
+		attempts++
+		allValid := true
+		sig := ""
+		for _, l := range obs {
+			allValid = allValid && l.valid
+			sig += l.head + " => " + l.trace + "\n"
+		}
+		done := false
+		if allValid {
+			if havePrev && prevSig == sig {
+				flush(obs, false)
+				done = true
+			} else {
+				prevSig, havePrev = sig, true
+			}
+		}
+		if !done && attempts >= maxAttempts {
+			fmt.Fprintf(os.Stderr, "note backstep case %v: no two agreeing valid observations in %d attempts (load); skipped\n", plan[planIdx].Sc, attempts)
+			flush(obs, true)
+			done = true
+		}
+		if !done {
+			return plan[planIdx], true // once more
+		}
+	}
+	planIdx++
+	attempts, havePrev, prevSig = 0, false, ""
+	if planIdx >= len(plan) {
+		return Case{}, false
+	}
+	return plan[planIdx], true
+}
+
 var seq int64
 
 // current fallback variant, set by the harness loop (SetCase); New copies it into the run
@@ -162,6 +239,7 @@ type Run struct {
 	fallbacks, rejections   int
 	nilDeref                bool
 	backstep, stepped       bool
+	bucketStart, handlerAt  int64 // wall ms: start of the bucket the run was aligned in; when the handler stepped the clock
 	marked                  bool
 	markAsked, markExits    int64
 	markErrs                int64
@@ -184,8 +262,9 @@ func New(key string, sc Scenario, errBack bool, format ...func(id string) string
 		// in the bucket before the node's first one is dropped as "behind" (leap-array behaviour, not this property's
 		// business).  Start the request well inside a 500 ms bucket so that 200 ms earlier is still the same bucket.
 		for {
-			m := clock.CurrentTimeMillis() % 500
-			if m >= 250 && m <= 400 {
+			now := time.Now().UnixNano() / 1e6
+			if m := now % 500; m >= 250 && m < 400 {
+				r.bucketStart = now - m
 				break
 			}
 			time.Sleep(5 * time.Millisecond)
@@ -226,7 +305,13 @@ func (r *Run) InHandler() error {
 	}
 	r.handlerRuns++
 	if r.backstep && !r.stepped {
+		// test hook (see notes/C19.md): C19_PROBE_STALL=<ms> stalls here on the first attempt of every backstep case
+		// (on every attempt with C19_PROBE_STALL_ALL=1), as a loaded machine would
+		if ms, _ := strconv.Atoi(os.Getenv("C19_PROBE_STALL")); ms > 0 && (attempts == 0 || os.Getenv("C19_PROBE_STALL_ALL") != "") {
+			time.Sleep(time.Duration(ms) * time.Millisecond)
+		}
 		r.stepped = true
+		r.handlerAt = time.Now().UnixNano() / 1e6
 		atomic.AddInt64(&clock.offsetNs, -backstepNs) // from here on, until Finish, time is 200 ms earlier
 	}
 	switch r.Sc.Handler {
@@ -354,5 +439,15 @@ func (r *Run) Finish() {
 	if r.Sc.Blocked {
 		b = "blocked"
 	}
-	fmt.Printf("trace %s %s %s %s => %s\n", r.Key, b, r.Sc.Handler, r.Variant, t)
+	head := fmt.Sprintf("trace %s %s %s %s", r.Key, b, r.Sc.Handler, r.Variant)
+	if !r.backstep {
+		fmt.Printf("%s => %s\n", head, t)
+		return
+	}
+	// valid: the handler was reached inside the aligned bucket (so the entry — and with it the fresh node — was created in
+	// it, and the completion recorded 200 ms earlier is not before the node's first bucket), and everything was read back
+	// while that bucket was still inside the node's two-bucket read window
+	readAt := time.Now().UnixNano() / 1e6
+	valid := readAt < r.bucketStart+1000 && (r.handlerAt == 0 || r.handlerAt < r.bucketStart+500)
+	pending = append(pending, pendingLine{head, t, valid})
 }
